@@ -15,4 +15,7 @@ MUTANTS = [
     M('C08', 'xor_byte_to_flip_ptr shifts the second hex by 8', 'flipjump/stl/hex/pointers/xor_to_pointer.fj', "            rep(2, i) .xor_hex_to_flip_ptr hex+i*dw, 4*i", "            rep(2, i) .xor_hex_to_flip_ptr hex+i*dw, 8*i", 'C08.CELL-WIDTH'),
     M('C08', 'EQ push n stride spelled i*2*dw', 'flipjump/stl/hex/pointers/stack.fj', "        rep(n/2, i) .push_byte hex+2*i*dw", "        rep(n/2, i) .push_byte hex+i*2*dw", None),
     M('C08', 'EQ pop n offset with the product expanded', 'flipjump/stl/hex/pointers/stack.fj', "        rep(n/2, i) .pop_byte hex+(n-n%2-2*(i+1))*dw", "        rep(n/2, i) .pop_byte hex+(n-n%2-2*i-2)*dw", None),
+    M('C08', 'bit.ptr_inc carry chain one bit short (seed C08_4)', 'flipjump/stl/bit/pointers.fj', "        .inc w-#w, ptr+(#w)*dw", "        .inc w-#dw, ptr+(#dw-1)*dw", 'C08.PTR-STRIDE'),
+    M('C08', 'bit.ptr_dec starts one bit too low', 'flipjump/stl/bit/pointers.fj', "        .dec w-#w, ptr+(#w)*dw", "        .dec w-#w+1, ptr+(#w-1)*dw", 'C08.PTR-STRIDE'),
+    M('C08', 'EQ bit.ptr_inc spelled with #dw', 'flipjump/stl/bit/pointers.fj', "        .inc w-#w, ptr+(#w)*dw", "        .inc w-(#dw-1), ptr+(#dw-1)*dw", None),
 ]
